@@ -21,6 +21,13 @@ correspondence : (A) rebuilt kernels fit_candidates (real/complex; binary64 repl
                  gmres_run_checked on every run (each projected matrix annihilates B_c and lies in the pattern; a theorem for
                  every input since gmres_run_property) and its conclusion; the proof-side complex Gram-Schmidt C10.cfitAgg (`ext_c10b_p_cfit`) vs
                  tentative.fit_candidates on every Gaussian-rational instance.
+                 (E48) energy_prolongation_smoother(krylov = cg / cgnr) on real and complex data and krylov = gmres on complex data
+                 (with and without root nodes) vs energyCG / energyCGC / energyGmresC run on exact (Gaussian) rationals
+                 (`ext_c10c_energy r|c`, `ext_c10c_gmres c`); the driver decides the hypotheses of cg_run_checked / gmresC_run_property
+                 on every call (flag hyps) and re-checks their conclusion on the model's result (flags rel / product); complex
+                 unfiltered Jacobi / Richardson vs the array model and both sides of smoothing_polynomial over CRat
+                 (`ext_c10c_smooth`, `ext_c10c_p_smooth`), complex filtered Jacobi vs filteredLoopC (`ext_c10c_jacf`, hypotheses and
+                 conclusion of filteredC_run_property decided on the instance).
 search         : the property itself on the real code with independent dense NumPy oracles:
                  T^H T = diag(1/0), T B_c = B on aggregated unknowns, zero rows, pattern(T) = AggOp (x) block,
                  number of zero columns = local rank deficiency for fit_candidates; (P - T) B_c = 0 and
@@ -42,7 +49,7 @@ import numpy as np
 import scipy.sparse as sp
 
 import gen
-from common import enc_ints, enc_rats, enc_crats, enc_rat, dec_list, dec_rat, dec_crat, frac
+from common import enc_ints, enc_rats, enc_crats, enc_rat, enc_crat, dec_list, dec_rat, dec_crat, frac
 
 META = {
     'rule': 'cases = (a) raw kernels and public functions on random partitions (unaggregated rows, empty and singleton '
@@ -54,15 +61,14 @@ META = {
             'hierarchies built with keep=True and improve_candidates=None.  A case is non-trivial when at least one '
             'aggregate has two or more unknowns (fit / hierarchy cases) or the update pattern has an off-diagonal block '
             '(projection / smoothing cases); distinct = distinct (operation, options, input) tuples',
-    'search_only': ['complex energy minimisation and the pre-/post-filter selection of the pattern '
+    'search_only': ['the pre-/post-filter selection of the pattern of the energy smoothers '
                     '(filter_matrix_rows / truncate_rows): judged on the real outputs by independent NumPy oracles ((P - T) B_c = 0, '
                     'supp(P - T) inside Atilde^degree pattern(T) with the filter recomputed independently, identity rows, P B_c = B) '
-                    '-- no Lean model of those loops; the Lean side covers them through updates_keep_product / updates_keep_pattern '
-                    '(any coefficients, any number of steps) and the exact models of the kernels the loops are built from '
-                    '(real gmres energy minimisation has a model of the whole loop since E24: gmres_run_checked)',
+                    '-- no Lean model of the filters; the loops themselves have executable models for which the property is a theorem on every '
+                    'input (cg / cgnr: cg_run_property, gmres: gmres_run_property, complex: cgC_run_property / gmresC_run_property; E24, E48), '
+                    'run on the pattern the code actually used',
                     'whole hierarchies (smoothed_aggregation_solver, rootnode_solver; keep=True, improve_candidates=None): every '
                     'level judged by the same oracles on the stored AggOp, T, P, B, Cpts',
-                    'complex unfiltered / filtered Jacobi and Richardson smoothing: NumPy oracle only (the Lean smoother models run on Rat)',
                     'single precision input: fit_candidates judged by the property oracle with tolerance 1e-4 only'],
     'partial': ['filter_operator_row_partial (root-node clause "reproduces B on every row whose pattern can support the constraints"): '
                 'proved for rows whose local Gram matrix B_J^H B_J is inverted by BtBinv; rows where the code falls back to a '
@@ -73,7 +79,10 @@ META = {
                 'for the real instance only (fitCandidates_refines)',
                 'gmres_run_property (T\' B_c = T B_c and pattern kept by the executable gmres model on every input on which it returns) '
                 'covers row-scaling preconditioners and block-diagonal ones whose block size is the row block size of the pattern '
-                '(all calls of the check); cg / cgnr models: the same hypotheses are decided per instance (no theorem about energyCG)'],
+                '(all calls of the check); the same restriction applies to cg_run_property / cgC_run_property / gmresC_run_property (E48). With root nodes '
+                'cg_run_property states the product and pattern clauses on the non-root rows and "untouched or identity row" on the root rows '
+                '(the loop resets the root rows after every update); the complex gmres model uses 64-bit square roots for norms and moduli '
+                '(compared with tolerance 1e-6 like the real one)'],
     'assumptions': ['binary64 rounding is outside the exact models: kernels are compared exactly on dyadic and perfect-square instances '
                     '(every operation is then exact) and fit_candidates is replayed in binary64 bit by bit on generic data; functions '
                     'that invert local matrices (compute_BtBinv, scale_T, block weighting: LAPACK pseudo-inverse) are compared with '
@@ -2232,17 +2241,290 @@ def part_e24(ctx, N):
     return items
 
 
+
+# ------------------------------------------------------------------------------------------------
+# extension E48: cg / cgnr energy minimisation with the hypotheses and the conclusion of cg_run_checked
+# decided on every run; complex energy minimisation (cg / cgnr / gmres) and complex Jacobi / Richardson
+# prolongation smoothing vs the models run on Gaussian rationals (Model/ExtC10cComplex.lean)
+# ------------------------------------------------------------------------------------------------
+
+def item_energy_model_x(ctx, rng, t):
+    """energy_prolongation_smoother(krylov = cg | cgnr | gmres) on real and complex data vs the exact models
+    (`ext_c10c_energy r|c` = energyCG / energyCGC, `ext_c10c_gmres c` = energyGmresC); the driver decides the
+    hypotheses of cg_run_checked / gmresC_run_property on the call (`hyps`) and re-checks their conclusion on the
+    model's result (`rel` / `product`)"""
+    from pyamg.aggregation.smooth import energy_prolongation_smoother
+    from pyamg.aggregation.tentative import fit_candidates
+    from pyamg.util.utils import scale_T, get_Cpt_params
+    cplx = t % 4 != 3                  # mostly complex (the real cg / cgnr runs are also covered by item_energy_model)
+    root = (t // 4) % 3 == 2
+    krylov = ['cg', 'cgnr', 'gmres'][t % 3] if cplx else ['cg', 'cgnr'][(t // 4) % 2]
+    degree = int(rng.choice([0, 1, 1, 2]))
+    maxiter = int(rng.integers(1, 4)) if krylov != 'gmres' else int(rng.choice([1, 2, 2] if ctx.quick else [1, 2, 2, 3]))
+    weighting = ['local', 'diagonal', 'block'][int(rng.integers(3))]
+    bs = int(rng.choice([1, 1, 2]))
+    nn = int(rng.integers(4, 8 if bs == 1 else 5))
+    M = rand_matrix(rng, nn, bs, cplx=cplx, sym=(krylov == 'cg' or t % 5 == 0))
+    S = to_sparse(M, bs)
+    agg, nc = chain_partition(rng, nn)
+    if root:
+        roots = np.array([int(rng.choice([i for i in range(nn) if agg[i] == j])) for j in range(nc)], dtype=np.int32)
+        B = rand_candidates(rng, agg, nc, bs, bs, cplx, 'generic')
+        K2 = bs
+    else:
+        roots = None
+        K2 = int(rng.choice([1, 1, 2])) if bs == 1 else int(rng.choice([1, bs]))
+        B = rand_candidates(rng, agg, nc, bs, K2, cplx, 'generic')
+    C, Cn = strength_pattern(rng, M, bs, sym=(t % 3 == 0))
+    Cv = C.toarray()
+    if root:
+        for i in range(nn):
+            if agg[i] < 0:
+                Cv[i, :] = 0
+                Cv[:, i] = 0
+                Cv[i, i] = 1.0
+        C = gen.int32csr(sp.csr_array(Cv))
+    AggOp = aggop_of(agg, nc)
+    T0, Bc = fit_candidates(AggOp, B)
+    cpts = []
+    par = (False, {})
+    if root:
+        p = get_Cpt_params(S, roots, AggOp, T0)
+        T0 = scale_T(T0, p['P_I'], p['I_F'])
+        Bc = p['P_I'].T @ B
+        cpts = [int(c) for c in p['Cpts']]
+        par = (True, p)
+    case = {'op': 'energy_model', 'root': root, 'krylov': krylov, 'degree': degree, 'maxiter': maxiter, 'weighting': weighting, 'bs': bs,
+            'nn': nn, 'K2': K2, 'complex': cplx, 'M': cj(M), 'Cvals': Cv.ravel().tolist(), 'agg': [int(a) for a in agg], 'nc': nc,
+            'roots': None if roots is None else roots.tolist(), 'B': cj(B)}
+    Tin = T0.copy()
+    what = f'energy_prolongation_smoother({krylov}, degree={degree}, maxiter={maxiter}, {weighting}, complex={cplx})'
+    try:
+        with Tap('compute_BtBinv') as tap, quiet():
+            P = energy_prolongation_smoother(S, T0, C, Bc, B if root else None, par, krylov=krylov, maxiter=maxiter, degree=degree,
+                                             weighting=weighting)
+    except Exception as e:       # noqa: BLE001
+        ctx.violation(f'{what} raised {type(e).__name__}: {e}', case)
+        return None
+    if not tap.calls:
+        return None
+    pat = tap.calls[0][0][1]
+    if pat.format != 'bsr' or tuple(pat.blocksize) != (bs, K2):
+        ctx.corr('energy smoother', case, 'n/a', f'pattern format {pat.format} blocksize {getattr(pat, "blocksize", None)}')
+        return None
+    st = rows_status(Bc, pat.indptr, pat.indices, nn, K2)
+    if any(x not in ('ok', 'empty') for x in st):
+        ctx.feat('energy-model-x:ill-posed-rows-skipped')
+        return None
+    Td, Pd = Tin.toarray(), P.toarray()
+    n = M.shape[0]
+    mode = 'c' if cplx else 'r'
+    if krylov == 'cgnr':
+        wt, aux = 4, (np.abs(M) ** 2).sum(0)
+    else:
+        eff = 'diagonal' if (weighting == 'block' and bs == 1) else weighting
+        wt, aux = {'diagonal': 0, 'local': 1, 'block': 3}[eff], np.abs(M).sum(1)
+    tol = enc_crat(1e-8) if cplx else enc_rat(1e-8)
+    tail = (f'{wt} {bs} {K2} {Bc.shape[1]} {pat_enc(pat.indptr, pat.indices, nn)} {n} {Td.shape[1]} '
+            f'{enc_vals(M, mode)} {enc_vals(aux, mode)} {enc_vals(Td, mode)} {enc_vals(Bc, mode)} {maxiter} {tol} {enc_ints(cpts)}')
+    if krylov == 'gmres':
+        line = 'ext_c10c_gmres c ' + tail
+    else:
+        line = f'ext_c10c_energy {mode} {1 if krylov == "cgnr" else 0} ' + tail
+    tag = f'energy-model-x:{krylov}:{"complex" if cplx else "real"}:{"root" if root else "plain"}'
+
+    def judge(reply):
+        ctx.feat(tag)
+        parts = reply.split(';')
+        if reply == 'singular' or len(parts) != (6 if krylov == 'gmres' else 4):
+            ctx.feat('energy-model-x:singular-skipped')
+            return
+        flags = parts[1].split(',')
+        if any(f in flags for f in ('PROJS-UNCONSTRAINED', 'UNCONSTRAINED', 'NOFOLD', 'NOPRODUCT', 'NOHYPS', 'NOREL')):
+            ctx.corr(f'energy smoother {krylov} (model invariants)', case, parts[1], 'n/a',
+                     'the call does not satisfy the hypotheses of cg_run_checked / gmresC_run_property or the model\'s own '
+                     'result does not satisfy their conclusion')
+            return
+        if flags[0] != 'ok' or flags[1] != 'regular' or (krylov == 'gmres' and flags[2] != 'generic'):
+            ctx.feat('energy-model-x:breakdown-or-singular-skipped')
+            return
+        if krylov == 'gmres':
+            normrs = [float(a) for a, _ in dec_list(parts[2], dec_crat)]
+            hns = [float(a) for a, _ in dec_list(parts[4], dec_crat)]
+            diag = [abs(complex(float(a), float(b))) for a, b in dec_list(parts[5], dec_crat)]
+            if normrs[:1] == [0.0]:
+                ctx.feat('energy-model-x:zero-initial-residual')
+            elif (any(x < 1e-4 for x in normrs) or any(x < 1e-6 for x in hns)
+                  or (diag and min(diag) < 1e-6 * max(diag + [1.0]))):
+                ctx.near_skipped += 1
+                return
+        else:
+            sums = ([abs(complex(float(a), float(b))) for a, b in dec_list(parts[2], dec_crat)] if cplx
+                    else [abs(float(x)) for x in dec_list(parts[2], dec_rat)])
+            if any(1e-12 < x < 1e-4 for x in sums):
+                ctx.near_skipped += 1
+                return
+        v, f = dec_vals(parts[0], mode)
+        ctx.feat(f'energy-model-x:updates:{parts[3]}')
+        if not close(f, Pd, 1e-6):
+            ctx.corr(f'energy smoother {krylov} ({"complex" if cplx else "real"})', case, parts[0][:300], cj(Pd)[:16])
+    return {'line': line, 'judge': judge, 'key': _key('energy-model-x', line), 'nontrivial': True,
+            'sample': {'op': 'energy smoother vs exact model (E48)', 'krylov': krylov, 'complex': cplx, 'degree': degree,
+                       'maxiter': maxiter, 'weighting': weighting, 'root': root, 'n': n}}
+
+
+def item_smooth_c(ctx, rng, t):
+    """complex unfiltered Jacobi / Richardson vs the array model on Gaussian rationals (`ext_c10c_smooth`) and both
+    sides of smoothing_polynomial over CRat (`ext_c10c_p_smooth`)"""
+    from pyamg.aggregation.smooth import jacobi_prolongation_smoother, richardson_prolongation_smoother
+    bs, nn, M, S, agg, nc, K2, B, T, Bc = smoother_setup(ctx, rng, t, True)
+    weighting = ['diagonal', 'local', 'richardson', 'block'][t % 4]
+    omega = float(rng.choice([4.0 / 3.0, 1.0, 0.5]))
+    degree = int(rng.choice([1, 1, 2, 3]))
+    case = {'op': 'smoother', 'weighting': weighting, 'omega': omega, 'degree': degree, 'bs': bs, 'nn': nn, 'complex': True,
+            'M': cj(M), 'agg': [int(a) for a in agg], 'nc': nc, 'K2': K2, 'B': cj(B), 'np_seed': int(rng.integers(2**31))}
+    np.random.seed(case['np_seed'])
+    Tin = T.copy()
+    try:
+        with Tap('approximate_spectral_radius') as tap:
+            if weighting == 'richardson':
+                P = richardson_prolongation_smoother(S, T, omega=omega, degree=degree)
+            else:
+                P = jacobi_prolongation_smoother(S, T, None, Bc, omega=omega, degree=degree, filter_entries=False, weighting=weighting)
+    except Exception as e:       # noqa: BLE001
+        ctx.violation(f'{weighting} prolongation smoother (complex) raised {type(e).__name__}: {e}', case)
+        return None
+    Pd, Td = P.toarray(), Tin.toarray()
+    n = M.shape[0]
+    eff = 'diagonal' if (weighting == 'block' and bs == 1) else weighting
+    if eff == 'local':
+        w = omega
+    else:
+        if len(tap.calls) != 1:
+            ctx.violation(f'{weighting}: approximate_spectral_radius called {len(tap.calls)} times', case)
+            return None
+        rho = complex(tap.calls[0][2])
+        if rho == 0 or not np.isfinite(rho):
+            return None
+        w = omega / rho
+    wt = {'diagonal': 0, 'local': 1, 'richardson': 2, 'block': 3}[eff]
+    args = (f'{wt} {bs} {enc_crat(w)} {degree} {n} {Td.shape[1]} {enc_crats(M.ravel())} {enc_crats(np.abs(M).sum(1))} '
+            f'{enc_crats(Td.ravel())}')
+    line = ['ext_c10c_smooth ' + args, 'ext_c10c_p_smooth ' + args]
+
+    def judge(reply):
+        ctx.feat(f'smooth-c:{weighting}:deg{degree}')
+        reply, reply2 = reply
+        if reply == 'singular':
+            ctx.feat('smooth-c:singular-block-skipped')
+            return
+        parts = reply.split(';')
+        if reply2.split(';') != parts:
+            ctx.corr('complex prolongation smoother', case, reply2[:300], reply[:300], 'model and proof-side iterate / polynomial differ')
+            return
+        if len(parts) != 2:
+            ctx.corr('complex prolongation smoother', case, reply[:200], 'n/a', 'driver rejected the request')
+            return
+        if parts[0] != parts[1]:
+            ctx.corr('complex prolongation smoother', case, reply[:300], 'n/a', 'model: smoothing loop and matrix polynomial differ')
+            return
+        v, f = dec_vals(parts[0], 'c')
+        if not close(f, Pd, 1e-9):
+            ctx.corr(f'{weighting} prolongation smoother (complex)', case, parts[0][:400], cj(Pd)[:16])
+    return {'line': line, 'judge': judge, 'key': _key('smooth-c', line[0]), 'nontrivial': True,
+            'sample': {'op': 'complex prolongation smoother', 'weighting': weighting, 'degree': degree, 'n': n, 'omega': omega}}
+
+
+def item_jacobi_filtered_c(ctx, rng, t):
+    """complex filtered Jacobi vs filteredLoopC (satisfy_constraints with B^H); the driver decides the hypotheses of
+    filteredC_run_property and re-checks its conclusion on the model's result"""
+    from pyamg.aggregation.smooth import jacobi_prolongation_smoother
+    bs, nn, M, S, agg, nc, K2, B, T, Bc = smoother_setup(ctx, rng, t, True)
+    C, Cn = strength_pattern(rng, M, bs, sym=(t % 3 == 0))
+    weighting = ['local', 'diagonal', 'block'][t % 3]
+    omega = float(rng.choice([4.0 / 3.0, 1.0]))
+    degree = int(rng.choice([1, 2, 2, 3]))
+    case = {'op': 'jacobi_filtered', 'weighting': weighting, 'omega': omega, 'degree': degree, 'bs': bs, 'nn': nn, 'complex': True,
+            'M': cj(M), 'C': Cn.astype(int).tolist(), 'agg': [int(a) for a in agg], 'nc': nc, 'K2': K2, 'B': cj(B),
+            'np_seed': int(rng.integers(2**31))}
+    np.random.seed(case['np_seed'])
+    pats = []
+    Tin = T.copy()
+    try:
+        with Tap('approximate_spectral_radius') as tap, \
+                Tap('satisfy_constraints', pre=lambda U, B_, Z: pats.append((U.indptr.copy(), U.indices.copy(), tuple(U.blocksize)))):
+            P = jacobi_prolongation_smoother(S, T, C, Bc, omega=omega, degree=degree, filter_entries=True, weighting=weighting)
+    except Exception as e:       # noqa: BLE001
+        ctx.violation(f'filtered Jacobi smoother (complex) raised {type(e).__name__}: {e}', case)
+        return None
+    n = M.shape[0]
+    Mf = M * (np.kron(Cn, np.ones((bs, bs))) != 0)
+    Td, Pd = Tin.toarray(), P.toarray()
+    if len(pats) != degree or not np.all(np.isfinite(Pd)):
+        return None                    # reported by item_jacobi_filtered's search on the same kind of input
+    stat = ['ok'] * nn
+    order = {'ok': 0, 'empty': 0, 'deficient': 1, 'ambiguous': 2}
+    for (ip, ix, blk) in pats:
+        st = rows_status(Bc, ip, ix, nn, K2)
+        stat = [a if order[a] >= order[b] else b for a, b in zip(stat, st)]
+    if any(s_ != 'ok' for s_ in stat):
+        ctx.feat('jacf-c:ill-posed-rows-skipped')
+        return None
+    eff = 'diagonal' if (weighting == 'block' and bs == 1) else weighting
+    if eff == 'local':
+        w = omega
+    else:
+        if len(tap.calls) != 1 or complex(tap.calls[0][2]) == 0:
+            ctx.feat('jacf-c:zero-scaled-matrix-skipped')
+            return None
+        w = omega / complex(tap.calls[0][2])
+    wt = {'diagonal': 0, 'local': 1, 'block': 3}[eff]
+    penc = '|'.join(pat_enc(ip, ix, nn) for (ip, ix, blk) in pats) if pats else '-'
+    line = (f'ext_c10c_jacf {wt} {bs} {enc_crat(w)} {bs} {K2} {K2} {n} {Td.shape[1]} {enc_crats(Mf.ravel())} '
+            f'{enc_crats(np.abs(Mf).sum(1))} {enc_crats(Bc.ravel())} {penc} {enc_crats(Td.ravel())}')
+
+    def judge(reply):
+        ctx.feat(f'jacf-c:{weighting}:deg{degree}')
+        if reply == 'singular':
+            ctx.feat('jacf-c:singular-skipped')
+            return
+        parts = reply.split(';')
+        if len(parts) != 3 or parts[1] != 'constrained' or parts[2] != 'hyps':
+            ctx.corr('complex filtered Jacobi smoother (model invariants)', case, reply[-60:], 'n/a',
+                     'the model\'s projected updates do not annihilate B_c, the proof-side fold differs, or the call is outside '
+                     'the hypotheses of filteredC_run_property')
+            return
+        v, f = dec_vals(parts[0], 'c')
+        if not close(f, Pd, 1e-8):
+            ctx.corr('complex filtered Jacobi smoother', case, parts[0][:400], cj(Pd)[:16])
+    return {'line': line, 'judge': judge, 'key': _key('jacf-c', line), 'nontrivial': True,
+            'sample': {'op': 'complex filtered Jacobi', 'weighting': weighting, 'degree': degree, 'n': n}}
+
+
+def part_e48(ctx, N):
+    rng = ctx.np_rng.spawn(1)[0]          # derived from VERIF_SEED, leaves the streams of the other parts as they were
+    items = []
+    for t in range(N):
+        items.append(safe(ctx, item_energy_model_x, rng, t))
+        if t % 2 == 0:
+            items.append(safe(ctx, item_smooth_c, rng, t // 2))
+        if t % 2 == 1:
+            items.append(safe(ctx, item_jacobi_filtered_c, rng, t // 2))
+    return items
+
+
 def run(ctx):
     items = part_a(ctx, ctx.scale(200, 10000))
     items += part_b(ctx, ctx.scale(150, 7500))
     items += part_e24(ctx, ctx.scale(60, 600))
+    items += part_e48(ctx, ctx.scale(48, 960))
     run_items(ctx, items)
     part_c(ctx, ctx.scale(150, 7500), ctx.scale(160, 8000), ctx.scale(42, 2100))
 
 
 def search(ctx):
     part_c(ctx, 600, 400, 140)
-    run_items(ctx, part_b(ctx, 300) + part_e24(ctx, 200))
+    run_items(ctx, part_b(ctx, 300) + part_e24(ctx, 200) + part_e48(ctx, 200))
 
 
 def _rebuild_smoother_inputs(case):
@@ -2392,7 +2674,7 @@ def replay(ctx, data):
     elif op == 'incomplete_mat_mult_bsr':
         replay_imm_bsr(ctx, case)
     elif op in ('energy_model', 'gmres_model'):
-        c2 = dict(case, complex=False, prefilter=None, postfilter=None)
+        c2 = dict(case, complex=case.get('complex', False), prefilter=None, postfilter=None)
         if case['root']:
             judge_rootnode(ctx, dict(c2, nd=case['bs']))
         else:
